@@ -270,7 +270,30 @@ let exectsm_cmd (toks : string list) : string option =
        | [] -> None)
   | _ -> None
 
-let handlers : (string list -> string option) list ref = ref [index_cmd; tree_cmd; exec_cmd; exectsm_cmd; mem_cmd]
+let codes_str (l : z list) = String.concat " " (List.map string_of_int (List.sort compare (List.map zi l)))
+let tcall_str (c : tcall) : string =
+  match c with
+  | TM2M_base (l, ch) -> Printf.sprintf "TM2M_base %s : %s" (zs l) (pairs ch)
+  | TM2M (l, cs) -> Printf.sprintf "TM2M %s : %s" (zs l) (codes_str cs)
+  | TM2L (l, cs) -> Printf.sprintf "TM2L %s : %s" (zs l) (codes_str cs)
+  | TL2L (l, cs) -> Printf.sprintf "TL2L %s : %s" (zs l) (codes_str cs)
+  | TL2L_base (l, ch) -> Printf.sprintf "TL2L_base %s : %s" (zs l) (pairs ch)
+
+let execper_cmd (toks : string list) : string option =
+  match toks with
+  | "execper" :: d :: h :: b :: mode :: k :: stop :: n :: nums ->
+      (match parse_tree ("tree" :: d :: "1" :: h :: b :: mode :: n :: nums) with
+       | Some (di, _, _, t, _, _) ->
+           let dn = nat_of_int di in
+           let kz = z_of_string k in
+           let calls = periodic_run dn kz (z_of_string stop) t in
+           let strs = List.map (function Real c -> call_str c | Top c -> tcall_str c) calls in
+           let (lo, hi) = repetition_interval kz in
+           Some (dump_tree t ^ " || " ^ String.concat " ; " strs ^ " || I " ^ zs lo ^ " " ^ zs hi ^ " " ^ zs (nb_repetitions kz))
+       | None -> None)
+  | _ -> None
+
+let handlers : (string list -> string option) list ref = ref [index_cmd; tree_cmd; exec_cmd; exectsm_cmd; execper_cmd; mem_cmd]
 
 let () =
   let ic = open_in Sys.argv.(1) in
